@@ -175,7 +175,9 @@ type namedSeg struct {
 	Kind string
 }
 
-func nmea() []byte { return []byte("$GPGGA,123519,4807.038,N,01131.000,E,1,08,0.9,545.4,M,46.9,M,,*47\r\n") }
+func nmea() []byte {
+	return []byte("$GPGGA,123519,4807.038,N,01131.000,E,1,08,0.9,545.4,M,46.9,M,,*47\r\n")
+}
 func ubx() []byte {
 	return []byte{0xB5, 0x62, 0x01, 0x02, 0x04, 0x00, 0x10, 0x20, 0x30, 0x40, 0xA7, 0x3C}
 }
